@@ -1,4 +1,5 @@
 import Swat4.Lemmas.StoreRefine
+import Swat4.Lemmas.StoreDrv
 /-!
 # C11 — The registry behaves as a versioned map with exact query predicates
 
@@ -166,6 +167,20 @@ theorem C11_main (clock : Int) (fresh : Nat) (cs : List RCall) :
 theorem C11_from {m : SeqM} {s : AbsState × Int} (h : Sim m s) (cs : List RCall) :
     HistEq (runHistM m cs) (runHistS s cs) :=
   runHist_sim h cs
+
+/-- the model side of the C11 driver: `Drv.runCall` for a write (lock/WATCH machine with trace labels,
+budget 200) renders exactly the specification's result and moves to a related, consistent,
+lock-free store — i.e. the function the differential run compares with the Go code is the one
+`write_refines` speaks about.  (Reads in `Drv.runCall` call `hmgetItems ∘ filterKeys`, `items[·]?`,
+`items.size` and the per-bit member counts directly.) -/
+theorem driver_write_refines {s : Drv.SeqState} {a : AbsState} (hc : Consistent s.st) (hrel : Rel s.st a)
+    (hno : ∀ k : Nat, s.st.locks[k]? = none) (kind : WKind) (svr : Server) (res : Resolver) :
+    (Drv.runCall s (.w kind svr res) .none).2.1 = Drv.renderWResult (specWrite a s.clock ⟨kind, svr, res⟩).2 ∧
+    Rel (Drv.runCall s (.w kind svr res) .none).1.st (specWrite a s.clock ⟨kind, svr, res⟩).1 ∧
+    Consistent (Drv.runCall s (.w kind svr res) .none).1.st ∧
+    (∀ k : Nat, (Drv.runCall s (.w kind svr res) .none).1.st.locks[k]? = none) ∧
+    (Drv.runCall s (.w kind svr res) .none).1.clock = s.clock :=
+  Drv.runCall_write_refines hc hrel hno kind svr res
 
 /-! ## non-vacuity -/
 
